@@ -51,15 +51,32 @@ def showItem : Item → String
   | .empty s lo hi => s!"E{s}:{lo}-{hi}"
   | .full s v lo hi last cs => s!"F{s}:{v}:{lo}-{hi}/{last}:{showNats (cs.map (·.seq))}"
 
+/-- chunk spec of an `o:` item: `lo-hi`, `all` (= 0..=last) or `p<k>of<n>` (k-th of n contiguous pieces) -/
+def chunkSpec (spec : String) (last : Nat) : Option (Nat × Nat) :=
+  if spec = "all" then some (0, last)
+  else if spec.startsWith "p" then
+    match (spec.drop 1).toString.splitOn "of" with
+    | [k, n] => do
+      let k ← k.toNat?; let n ← n.toNat?
+      if n = 0 ∨ k ≥ n then none else
+      let lo := k * (last + 1) / n
+      let hi1 := (k + 1) * (last + 1) / n
+      if hi1 ≤ lo then none else some (lo, hi1 - 1)
+    | _ => none
+  else range? spec
+
 def parseItem (st : CState) (s : String) : Except String Item :=
   match s.splitOn ":" with
   | ["o", site, ver, seqs] =>
-    match nodeIdx site, ver.toNat?, range? seqs with
-    | some a, some v, some (lo, hi) =>
+    match nodeIdx site, ver.toNat? with
+    | some a, some v =>
       match st.log.find? (·.1 = (a, v)) with
       | none => .error "err no-such-version"
-      | some (_, (chs, last)) => .ok (.full a v lo hi last (chs.filter (fun c => lo ≤ c.seq ∧ c.seq ≤ hi)))
-    | _, _, _ => .error "bad-op"
+      | some (_, (chs, last)) =>
+        match chunkSpec seqs last with
+        | none => .error "err bad-chunk"
+        | some (lo, hi) => .ok (.full a v lo hi last (chs.filter (fun c => lo ≤ c.seq ∧ c.seq ≤ hi)))
+    | _, _ => .error "bad-op"
   | ["x", site, ver, seqs, last] =>
     match nodeIdx site, ver.toNat?, range? seqs, last.toNat? with
     | some a, some v, some (lo, hi), some l => .ok (.full a v lo hi l [])
